@@ -26,13 +26,13 @@ def ty2_rev_loop(u, key, text):
 
 
 def ty3_rposition(u, key, text):
-    """TY3: `steps.iter().rposition(|step| BODY)` -> `slice_rposition(steps.as_slice(), |step: &ReferenceStep| -> (b: bool) ensures .. { BODY })`
+    """TY3: `steps.iter().rposition(|step| BODY)` (or .position) -> `slice_rposition(steps.as_slice(), |step: &ReferenceStep| -> (b: bool) ensures .. { BODY })`
     slice_rposition is the VERIFIED helper of prelude/slice_position.rs (greatest index on which the closure returns true; as rule
     KO1 of units/u_keyoff_rules.py).  BODY is kept verbatim and checked by Verus against the closure's ghost contract
     `b == (member_of(*step) is Some)`."""
-    pat = re.compile(r'steps\s*\.iter\(\)\s*\.rposition\(\|step\|\s*([^|{};]*?)\)(?=\s*\{)')
+    pat = re.compile(r'steps\s*\.iter\(\)\s*\.(r?position)\(\|step\|\s*([^|{};]*?)\)(?=\s*\{)')
     def f(m):
-        u.rules['TY3-rposition'] += 1
-        return ('slice_rposition(steps.as_slice(), |step: &ReferenceStep| -> (b: bool)\n\t\t\t\tensures b == (member_of(*step) is Some) /*@L:C07.typst.member_step_test*/\n'
-                '\t\t\t\t{ %s })' % m.group(1).strip())
+        u.rules['TY3-' + m.group(1)] += 1
+        return ('slice_%s(steps.as_slice(), |step: &ReferenceStep| -> (b: bool)\n\t\t\t\tensures b == (member_of(*step) is Some) /*@L:C07.typst.member_step_test*/\n'
+                '\t\t\t\t{ %s })' % (m.group(1), m.group(2).strip()))
     return pat.sub(f, text)
